@@ -731,6 +731,93 @@ part_multi(long long nexh, long long cases, int three)
 			nparts ++;
 		}
 	}
+	/* injected (count, chaining values): the bit-length carries of every function, reached by writing the
+	   fields of the context structure (declared in bearssl_hash.h, "not supposed to be accessed directly":
+	   this is a model-level check). Layout assumption, calibrated below against br_multihash_init(): the
+	   state of function id is stored in the serialisation of its state() method at val_32 + {0, 16, 36, 68}
+	   bytes (MD5, SHA-1, SHA-224, SHA-256) resp. val_64 + {0, 64} bytes (SHA-384, SHA-512); count = bytes
+	   injected so far. Count classes as in part inject, multiples of the 128-byte buffer. */
+	{
+		static const size_t off[6] = { 0, 16, 36, 68, 0, 64 };
+		long long ninj = cases / 4;
+		int layout_ok = 1, id;
+		multi_setup(mc, 63);
+		for (id = 1; id <= 6; id ++) {
+			const hdesc *h = &HD[id - 1];
+			unsigned char iv[64];
+			void *c = xmalloc(h->vt->context_size);
+			const unsigned char *base = id >= 5 ? (const unsigned char *)mc->val_64 : (const unsigned char *)mc->val_32;
+			h->vt->init((HC)c);
+			h->vt->state((HCC)c, iv);
+			if (memcmp(base + off[id - 1], iv, h->slen) != 0) layout_ok = 0;
+			free(c);
+		}
+		if (!layout_ok) {
+			vf_stat("multi_inject_layout_unknown", 1);
+			ninj = 0;
+		}
+		for (idx = 0; idx < ninj; idx ++) {
+			unsigned char cv[6][64], *d;
+			uint64_t count, room = ~(uint64_t)0;
+			uint32_t kk;
+			size_t dlen, cut[8];
+			int mask, cls, np, j, narrow;
+
+			if (!MINE()) continue;
+			case_rng(&r, PART_MULTI, 3000000 + idx);
+			cls = (int)(idx % 6);
+			mask = 1 + (int)((idx / 6) % 63);
+			if (cls == 3) mask &= 0x30;                 /* top of the 128-bit counter region: SHA-384/512 only */
+			if (mask == 0) mask = 0x30;
+			narrow = (mask & 0x0F) != 0;
+			kk = vf_below(&r, 6);
+			switch (cls) {
+			case 0: count = ((uint64_t)1 << 29) - kk * 128; break;        /* bit count crosses 2^32 */
+			case 1: count = ((uint64_t)1 << 32) - kk * 128; break;
+			case 2:                                                         /* bit count reaches 2^64 - ... */
+				kk ++;
+				count = ((uint64_t)1 << 61) - kk * 128;
+				if (narrow) room = kk * 128 - 1;
+				break;
+			case 3: kk ++; count = (uint64_t)0 - kk * 128; room = kk * 128 - 1; break;
+			case 4: count = kk * 128; break;
+			default:
+				count = (vf_u64(&r) >> (4 + vf_below(&r, 50))) & ~(uint64_t)127;
+				if (narrow && count + 2048 >= ((uint64_t)1 << 61)) count &= ((uint64_t)1 << 60) - 1;
+				break;
+			}
+			dlen = pick_len(&r, 700);
+			if (dlen > room) dlen = (size_t)room;
+			d = xmalloc(dlen);
+			vf_bytes(&r, d, dlen);
+			memset(mc, 0x99, sizeof *mc);
+			multi_setup(mc, mask);
+			for (id = 1; id <= 6; id ++) {
+				unsigned char *base = id >= 5 ? (unsigned char *)mc->val_64 : (unsigned char *)mc->val_32;
+				vf_bytes(&r, cv[id - 1], HD[id - 1].slen);
+				if (mask & (1 << (id - 1))) memcpy(base + off[id - 1], cv[id - 1], HD[id - 1].slen);
+			}
+			mc->count = count;
+			np = 1 + (int)vf_below(&r, 4);
+			mk_cuts(&r, dlen, np, cut);
+			for (j = 0; j < np; j ++) br_multihash_update(mc, d + cut[j], cut[j + 1] - cut[j]);
+			for (id = 1; id <= 6; id ++) {
+				const hdesc *h = &HD[id - 1];
+				unsigned char o[64], e[64];
+				size_t rl;
+				if (!(mask & (1 << (id - 1)))) continue;
+				rl = br_multihash_out(mc, id, o);
+				ref_inject(h, cv[id - 1], count, d, dlen, e);
+				chki(M_MULTI, h->name, (long long)rl, (long long)h->hlen, "inject retlen mask=%d", mask);
+				chk(M_MULTI, h->name, o, e, h->hlen, "inject h=%s mask=%d cv=%s count=0x%llx dlen=%d data=%s", h->name, mask,
+					vf_hexs(cv[id - 1], h->slen), (unsigned long long)count, (int)dlen, vf_hexs(d, dlen));
+				vf_stat("cmp_multihash_inject", 1);
+			}
+			vf_distinct("config", "multi/inject/class%d/%s", cls, narrow ? ((mask & 0x30) ? "mixed" : "narrow") : "wide");
+			nparts ++;
+			free(d);
+		}
+	}
 	vf_stat("cases", nparts);
 	vf_stat("partitions", nparts);
 	free(msg); free(mc); free(mc1); free(mc2);
@@ -1112,6 +1199,52 @@ part_hmacct(long long mmax, long long cases, int nprefix)
 		if (idx < 2) vf_sample("{\"part\":\"hmacct\",\"hash\":\"%s\",\"prefix\":%d,\"max\":%d,\"mac_full\":\"%s\"}", h->name, (int)p, (int)mx, vf_hexs(o, explen));
 		free(key); free(pre); free(D); free(buf); free(o); free(hc); free(snap);
 	}
+	/* record-sized arguments, as the CBC record layer calls it: max in [16384, 17500], min = max - {0, 1, 255, 256, 300}
+	   (max - min = 256 + padding slack in TLS), len anywhere in [min, max], 13-byte pseudo-header already injected */
+	{
+		static const size_t dmin[5] = { 0, 1, 255, 256, 300 };
+		long long nbig = cases >= 100000 ? 2000 : 200;
+		for (idx = 0; idx < nbig; idx ++) {
+			const hdesc *h;
+			unsigned char key[64], pre[13], *D, *buf, *o, e[64];
+			size_t klen, mx, mn, len, rl;
+			br_hmac_key_context kc;
+			br_hmac_context *hc, *snap;
+
+			if (!MINE()) continue;
+			case_rng(&r, PART_HMACCT, 7000000 + idx);
+			h = &HD[idx % 6];
+			klen = h->hlen > 48 ? 48 : h->hlen;       /* TLS MAC keys: 16 / 20 / 32 / 48 bytes */
+			vf_bytes(&r, key, klen);
+			vf_bytes(&r, pre, sizeof pre);
+			mx = 16384 + vf_below(&r, 17500 - 16384 + 1);
+			mn = mx - dmin[(idx / 6) % 5];
+			switch ((idx / 30) % 4) {
+			case 0: len = mn; break;
+			case 1: len = mx; break;
+			default: len = mn + vf_below(&r, (uint32_t)(mx - mn) + 1); break;
+			}
+			D = xmalloc(mx); vf_bytes(&r, D, mx);
+			buf = vf_dup(D, mx);
+			br_hmac_key_init(&kc, h->vt, key, klen);
+			hc = xmalloc(sizeof *hc); snap = xmalloc(sizeof *snap);
+			br_hmac_init(hc, &kc, 0);
+			br_hmac_update(hc, pre, sizeof pre);
+			memcpy(snap, hc, sizeof *hc);
+			o = xmalloc(h->hlen);
+			memset(o, 0x6B, h->hlen);
+			ref_hmac3(h, key, klen, pre, sizeof pre, D, len, NULL, 0, e);
+			rl = br_hmac_outCT(hc, buf, len, mn, mx, o);
+			chki(M_HMACLEN, h->name, (long long)rl, (long long)h->hlen, "outCT-ret record-size");
+			chk(M_HMACCT, h->name, o, e, h->hlen, "record-size h=%s case=%lld prefix=13 min=%d len=%d max=%d key=%s pre=%s (data = stream of the case)",
+				h->name, idx, (int)mn, (int)len, (int)mx, vf_hexs(key, klen), vf_hexs(pre, sizeof pre));
+			chk(M_UNMOD, "hmac_outCT", hc, snap, sizeof *hc, "h=%s", h->name);
+			vf_distinct("config", "hmacct/record/%s/d%d", h->name, (int)(mx - mn));
+			vf_stat("outct_record_size_triples", 1);
+			ntrip ++;
+			free(D); free(buf); free(o); free(hc); free(snap);
+		}
+	}
 	vf_stat("cases", ntrip);
 	vf_stat("outct_triples", ntrip);
 }
@@ -1443,6 +1576,39 @@ part_mgf1(long long cases)
 		chk(M_MGF1, h->name, data, mask, len, "h=%s seed=%s len=%d", h->name, vf_hexs(seed, slen), (int)len);
 		vf_distinct("config", "mgf1/%s", h->name);
 		if (idx < 2) vf_sample("{\"part\":\"mgf1\",\"hash\":\"%s\",\"seedlen\":%d,\"len\":%d}", h->name, (int)slen, (int)len);
+		vf_stat("cases", 1);
+		free(seed); free(data); free(orig); free(mask);
+	}
+	/* more than 256 blocks of output: the 32-bit block counter carries out of its low byte.
+	   Lengths 256*hlen + {-1, 0, 1, hlen+1} (and 512*hlen+1 for MD5 / SHA-1) for every function */
+	for (idx = 0; idx < 6 * 5; idx ++) {
+		static const int dl[4] = { -1, 0, 1, 0 };
+		vf_rng r;
+		const hdesc *h = &HD[idx % 6];
+		int v = (int)(idx / 6);
+		size_t slen, len, i;
+		unsigned char *seed, *data, *orig, *mask;
+
+		if (!MINE()) continue;
+		if (v == 4 && h->hlen > 20) continue;
+		case_rng(&r, PART_MGF1, 9000000 + idx);
+		len = v == 4 ? 512 * h->hlen + 1 : v == 3 ? 257 * h->hlen + 1 : (size_t)((long)(256 * h->hlen) + dl[v]);
+		slen = (idx & 1) ? h->hlen : vf_below(&r, 200);
+		seed = xmalloc(slen); vf_bytes(&r, seed, slen);
+		orig = xmalloc(len); vf_bytes(&r, orig, len);
+		data = vf_dup(orig, len);
+		mask = xmalloc(len);
+		br_mgf1_xor(data, len, h->vt, seed, slen);
+		{
+			static unsigned char z = 0;
+			if (PKCS1_MGF1(mask, (long)len, slen ? seed : &z, (long)slen, h->md) != 0) hfail("PKCS1_MGF1");
+			for (i = 0; i < len; i ++) mask[i] ^= orig[i];
+		}
+		/* the interesting bytes are the last ones: compare the tail first so that the report shows it */
+		if (chk(M_MGF1, h->name, data + len - (h->hlen + 2), mask + len - (h->hlen + 2), h->hlen + 2, "long-tail h=%s seed=%s len=%d", h->name, vf_hexs(seed, slen), (int)len))
+			chk(M_MGF1, h->name, data, mask, len, "long h=%s seed=%s len=%d", h->name, vf_hexs(seed, slen), (int)len);
+		vf_distinct("config", "mgf1/%s/long%d", h->name, v);
+		vf_stat("mgf1_over_256_blocks", 1);
 		vf_stat("cases", 1);
 		free(seed); free(data); free(orig); free(mask);
 	}
